@@ -100,7 +100,7 @@ func putHdrs(i int) []s3c.KV {
 // ---- case ---------------------------------------------------------------------------
 
 type op struct {
-	Kind string `json:"kind"` // put | mpu | copy | delete | get | getsum | head | gettags (GetObjectTagging: every write has the tag w=<n>) | putparent | copyout (the key read by a CopyObject to a key of the operation's own)
+	Kind string `json:"kind"` // put | mpu | copy | delete | get | getsum | head | headsum (HEAD with checksum mode) | gettags (GetObjectTagging: every write has the tag w=<n>) | putparent | copyout (the key read by a CopyObject to a key of the operation's own)
 	W    int    `json:"w,omitempty"`
 	Proc int    `json:"proc,omitempty"`
 }
@@ -110,12 +110,16 @@ type caseA struct {
 	Versioned bool  `json:"versioned,omitempty"` // gateways with a versions store, bucket versioning enabled
 	Procs     int   `json:"procs"`               // gateway instances sharing the storage (1 or 2)
 	Initial   int   `json:"initial"`             // 0: key absent, else the write present before the race
+	InitMPU   bool  `json:"initial_by_multipart,omitempty"` // the initial object was stored by a multipart upload (no checksum stored with it)
 	Ops       []op  `json:"ops"`
 	Schedule  []int `json:"schedule"`
 	// Stall[i] = n > 0: operation i, once it has been released StallAt[i] times, stays parked while any other move is
 	// possible and fewer than n moves were made (a request that pauses at one point while others run to completion)
 	Stall   []int `json:"stall,omitempty"`
 	StallAt []int `json:"stall_at,omitempty"`
+	// StallPoint[i] = prefix of a hook name: operation i pauses (instead of after StallAt[i] steps) whenever it is about
+	// to make a step of that kind - an attribute written or removed by path, the open of a read, the rename of a write
+	StallPoint []string `json:"stall_point,omitempty"`
 }
 
 // ---- observation ---------------------------------------------------------------------
@@ -187,9 +191,11 @@ func attribute(r *s3c.Resp, head bool) outcome {
 		return o
 	}
 	// a checksum, when the answer carries one (x-amz-checksum-mode: ENABLED), is the one of the same write
-	if cs := r.Header.Get("x-amz-checksum-crc32"); cs != "" && cs != s3c.Checksum("crc32", writes[byBody].body) {
-		o.Torn = fmt.Sprintf("body/ETag of w%d with x-amz-checksum-crc32 %q (w%d has %s)", byBody, cs, byBody, s3c.Checksum("crc32", writes[byBody].body))
-		return o
+	for _, algo := range s3c.ChecksumAlgos {
+		if cs := r.Header.Get("x-amz-checksum-" + algo); cs != "" && cs != s3c.Checksum(algo, writes[byBody].body) {
+			o.Torn = fmt.Sprintf("body/ETag of w%d with x-amz-checksum-%s %q (w%d has %s)", byBody, algo, cs, byBody, s3c.Checksum(algo, writes[byBody].body))
+			return o
+		}
 	}
 	o.Val = byBody
 	return o
@@ -361,7 +367,15 @@ func execA(c caseA) (hist []histOp, overlap bool, err error) {
 			}
 		}
 	}
-	if c.Initial > 0 {
+	if c.Initial > 0 && c.InitMPU {
+		p, err := prepareMPU(cls[0], bkt, c.Initial)
+		if err != nil {
+			return nil, false, fmt.Errorf("SETUP: initial object: %v", err)
+		}
+		if r, err := cls[0].Call("POST", "/"+bkt+"/"+key, s3c.Q("uploadId", p.id), nil, s3c.CompleteXML(p.parts)); err != nil || !r.OK() || strings.Contains(string(r.Body), "<Error>") {
+			return nil, false, fmt.Errorf("SETUP: initial object: %v %v", r, err)
+		}
+	} else if c.Initial > 0 {
 		if r, err := doWrite(cls[0], bkt, "put", c.Initial); err != nil || !r.OK() {
 			return nil, false, fmt.Errorf("SETUP: initial object: %v %v", r, err)
 		}
@@ -388,6 +402,12 @@ func execA(c caseA) (hist []histOp, overlap bool, err error) {
 				s.Starve[i] = n
 				if i < len(c.StallAt) {
 					s.StarveFrom[i] = c.StallAt[i]
+				}
+				if i < len(c.StallPoint) && c.StallPoint[i] != "" {
+					if s.StarveAt == nil {
+						s.StarveAt = map[int]string{}
+					}
+					s.StarveAt[i] = c.StallPoint[i]
 				}
 			}
 		}
@@ -421,6 +441,8 @@ func execA(c caseA) (hist []histOp, overlap bool, err error) {
 			r, err = cl.Call("GET", path, nil, []s3c.KV{{K: "x-amz-checksum-mode", V: "ENABLED"}}, nil)
 		case "head":
 			r, err = cl.Call("HEAD", path, nil, nil, nil)
+		case "headsum":
+			r, err = cl.Call("HEAD", path, nil, []s3c.KV{{K: "x-amz-checksum-mode", V: "ENABLED"}}, nil)
 		case "gettags":
 			r, err = cl.Call("GET", path, s3c.Q("tagging", ""), nil, nil)
 		case "copyout":
@@ -443,7 +465,7 @@ func execA(c caseA) (hist []histOp, overlap bool, err error) {
 		switch o.Kind {
 		case "get", "getsum", "copyout":
 			return ret{out: attribute(r, false)}
-		case "head":
+		case "head", "headsum":
 			return ret{out: attribute(r, true)}
 		case "gettags":
 			return ret{out: attributeTags(r)}
@@ -471,7 +493,7 @@ func execA(c caseA) (hist []histOp, overlap bool, err error) {
 	for _, r := range res {
 		last = max(last, r.Return)
 	}
-	if fr, ferr := cls[0].Call("GET", path, nil, nil, nil); ferr == nil {
+	if fr, ferr := cls[0].Call("GET", path, nil, []s3c.KV{{K: "x-amz-checksum-mode", V: "ENABLED"}}, nil); ferr == nil {
 		fo := attribute(fr, false)
 		fop := op{Kind: "get"}
 		hist = append(hist, histOp{Op: fop, Call: last + 1, Return: last + 2, Out: fo.String(), Points: []string{"(after all others had returned)"}})
@@ -520,6 +542,7 @@ func caseGen() *rapid.Generator[caseA] {
 		c.Procs = rapid.IntRange(1, 2).Draw(t, "procs")
 		c.Versioned = rapid.IntRange(0, 3).Draw(t, "versioned") == 0
 		c.Initial = rapid.SampledFrom([]int{0, 1, 1, 1, 4}).Draw(t, "initial")
+		c.InitMPU = c.Initial > 0 && rapid.IntRange(0, 2).Draw(t, "initial_by_multipart") == 0
 		n := rapid.IntRange(2, 4).Draw(t, "nops")
 		avail := []int{2, 3, 4}
 		if c.Initial == 4 {
@@ -528,7 +551,7 @@ func caseGen() *rapid.Generator[caseA] {
 		readers := 0
 		for i := 0; i < n; i++ {
 			var o op
-			o.Kind = rapid.SampledFrom([]string{"put", "put", "mpu", "copy", "delete", "get", "getsum", "getsum", "head", "put", "put", "mpu", "copy", "delete", "get", "getsum", "getsum", "head", "putparent", "copyout", "copyout", "gettags"}).Draw(t, "kind")
+			o.Kind = rapid.SampledFrom([]string{"put", "put", "mpu", "copy", "delete", "get", "getsum", "getsum", "head", "put", "put", "mpu", "copy", "delete", "get", "getsum", "getsum", "head", "putparent", "copyout", "copyout", "gettags", "headsum", "headsum"}).Draw(t, "kind")
 			if i == n-1 && readers == 0 {
 				o.Kind = rapid.SampledFrom([]string{"getsum", "getsum", "get", "head"}).Draw(t, "reader")
 			}
@@ -540,7 +563,7 @@ func caseGen() *rapid.Generator[caseA] {
 					o.W, avail = avail[0], avail[1:]
 				}
 			}
-			if o.Kind == "get" || o.Kind == "getsum" || o.Kind == "head" || o.Kind == "copyout" || o.Kind == "gettags" {
+			if o.Kind == "get" || o.Kind == "getsum" || o.Kind == "head" || o.Kind == "copyout" || o.Kind == "gettags" || o.Kind == "headsum" {
 				readers++
 			}
 			o.Proc = rapid.IntRange(0, c.Procs-1).Draw(t, "proc")
@@ -565,7 +588,7 @@ func caseGen() *rapid.Generator[caseA] {
 			i := rapid.IntRange(0, n-1).Draw(t, "stall_op")
 			if rapid.Bool().Draw(t, "stall_a_reader") {
 				for j, o := range c.Ops {
-					if (o.Kind == "get" || o.Kind == "getsum" || o.Kind == "head" || o.Kind == "copyout") && rapid.Bool().Draw(t, "stall_reader") {
+					if (o.Kind == "get" || o.Kind == "getsum" || o.Kind == "head" || o.Kind == "headsum" || o.Kind == "copyout") && rapid.Bool().Draw(t, "stall_reader") {
 						i = j
 						break
 					}
@@ -574,6 +597,11 @@ func caseGen() *rapid.Generator[caseA] {
 			c.Stall, c.StallAt = make([]int, n), make([]int, n)
 			c.Stall[i] = 200
 			c.StallAt[i] = rapid.IntRange(0, 18).Draw(t, "stall_at")
+			if rapid.Bool().Draw(t, "stall_by_point") {
+				c.StallPoint = make([]string, n)
+				c.StallPoint[i] = rapid.SampledFrom([]string{"meta.set", "meta.set", "meta.del", "read.open", "link.rename", "link.remove", "link.linkat",
+					"copy.src-attrs-read", "version.", "put.body-done", "put.linked", "complete.linked", "delete."}).Draw(t, "stall_point")
+			}
 		}
 		return c
 	})
